@@ -99,8 +99,17 @@ fn gen_single_run(check: &str, tag: &str, seed: u64, index: u64, serial_baseline
    let (gname, mut ops) = gen_input_ops(def, &mut rng);
    ops.insert(0, Op::New { pool: PoolRef::Global });
    ops.push(Op::Run { pool: PoolRef::Global });
-   if check == "C05" && rng.chance(150) {
-      // "no matter how many ... iterations": a repeated run must not append a tuple again either
+   if check == "C05" && rng.chance(250) {
+      // "no matter how many ... iterations", "whether it was an input fact or derived earlier": a
+      // repeated run must not append a tuple again either, also not one the caller appended to a
+      // derived (possibly write-only) relation in between
+      if rng.chance(500) {
+         for _ in 0..rng.range(1, 2) {
+            if let Some(p) = gen_push(def, &mut rng, &ops, false) {
+               ops.push(p);
+            }
+         }
+      }
       ops.push(Op::Run { pool: PoolRef::Global });
    }
    case.label = format!("{}/{}/{}", def.name, variant.name(), gname);
